@@ -65,7 +65,9 @@ UCastN  == { Tiny(1, TinyText), Tiny(-1, TinyText), IntV(65), IntV(97), IntV(233
              Big(1, "9223372036854776000") }
 UCastS  == { "", "0", "1", "11", "-11", "+11", "ff", "FF", "zz", "1.5", "-0", "12a", " 1", "1 ", "nan", "inf", "-inf",
              "Infinity", "1e1", ".5", "5.", ".", "-", "+", "0.1", "1_0", "~", "99999999999", "123456789012345678901",
-             "0.0000000000000001", "-0.001", "0.00100", ".001" }
+             "0.0000000000000001", "-0.001", "0.00100", ".001",
+             \* unparsable and long: the message that names it must still be renderable
+             "x~~~~~~~~~~~~~~~~~~~~~~~~~~~~~~", "abcdefghijklmnopqrstuvwxyzabcdefghijklmnopqrstuvwxyz", "~~~~~~~~~~~~~~~~~" }
            \cup (IF Tier = "thorough" THEN { "10", "101", "z", "Z", "g", "-ff", "+-1", "--1", "1e2", "1e-1", "2.5e1", "1e", "e1", "0x10", "1,0", "NaN", "INF",
                                               "infinit", "+inf", "-nan", "0.5", "0.25", "0.125", "1.0", "-1.5", "007", "1 1", "2", "7", "9", "a", "A" } ELSE {})
 URadix  == { NoParam, IntV(2), IntV(10), IntV(16), IntV(36), IntV(37), IntV(1), IntV(0), IntV(-1), NZero, Fin(160),
